@@ -6831,7 +6831,11 @@ impl Machine {
             parser
                 .read_term(&op_dir, Tokens::Default)
                 .map_err(|err| error_after_read_term(err, 0, &parser))
-                .and_then(|term| write_term_to_heap(&term, &mut self.machine_st.heap))
+                .and_then(|term| {
+                    let result = write_term_to_heap(&term, &mut self.machine_st.heap);
+                    crate::parser::ast::drop_term_iteratively(term);
+                    result
+                })
         };
 
         match term_write_result {
